@@ -47,7 +47,7 @@ PROPS["C13"] = dict(engine="E14", level="fault_enumeration",
    design_ref="DESIGN.md 5.13", technique="runtime monitoring: timestamped List() calls at the fake client in synctest virtual time, cadence/concurrency/liveness-as-bounded-progress oracles, goroutine census")
 
 PROPS["C05"] = dict(engine="E6", level="exploration",
-   rule="one case = seeded scenario on the root kit (cache + root subscription + publisher, the engine is the only producer so the published sequence is known exactly): 200-600 uniquely versioned events in bursts of <=25 with a quiescence barrier between bursts; a growing tree of Subscribe/Clone to depth 3 (up to ~24 nodes), subscribers added at barriers and, from a second goroutine, in the middle of bursts; leaves closed at barriers; logger perturbation at the publisher/subscription points; 1 in 8 cases in race mode (collaborators without shared state). distinct = distinct scenario descriptor; non-trivial = at least one leaf received events and was compared with the published sequence.",
+   rule="one case = seeded scenario on the root kit (cache + root subscription + publisher, the engine is the only producer so the published sequence is known exactly): 200-600 uniquely versioned events in bursts of <=25 with a quiescence barrier between bursts; a growing tree of Subscribe/Clone to depth 3 (up to ~24 nodes), subscribers added at barriers and, from a second goroutine, in the middle of bursts; leaves closed at barriers; logger perturbation at the publisher/subscription points; 1 in 8 cases in race mode (collaborators without shared state). Plus the real controller path: trees over a controller fed by the fake server (clean watch, relists disabled), where the published sequence is the server's event log and every consumer calls Cache().Get right after each received event. distinct = distinct scenario descriptor; non-trivial = at least one leaf received events and was compared with the published sequence.",
    assumptions=["backlog stays below the event buffer (<=25 in flight), so exact delivery applies", "the root kit wires cache/subscription/publisher exactly as builder.Create does"],
    floors={"any": {"leaves": 500, "events-received": 50000, "mid-burst-subscribers": 50}},
    level_text="Seeded exploration of (tree shape x subscription time x schedule perturbation); oracle per leaf: received sequence is the contiguous, duplicate-free suffix of the published sequence starting no later than the first event whose publication began after Subscribe returned, with object identity; cache clause: Cache().Get right after each received event never returns an older version.",
